@@ -1,9 +1,12 @@
 //! Harness for the tracing-core / tracing properties: C01 C02 C04 C19.
+mod c04;
 mod c19;
+pub mod rec;
 
 fn main() {
     let args = mc::parse_args();
     let code = match args.property.as_str() {
+        "C04" => c04::run(&args),
         "C19" => c19::run(&args),
         p => {
             eprintln!("h_core: unknown property {}", p);
